@@ -744,6 +744,15 @@ class CallGraph:
                 init = self.repo.mro_method(cs.target, "__init__")
                 if init is not None:
                     edges.add(init.fq)
+            # a tucan function handed to a call (map(f, xs), partial(f, …), sorted(key=f)) may be called from here
+            for a in list(n.args) + [k.value for k in n.keywords]:
+                if isinstance(a, (ast.Name, ast.Attribute)) and not (isinstance(a, ast.Name) and a.id in params):
+                    try:
+                        r = self.repo.resolve_dotted(fi.module, a)
+                    except Exception:
+                        r = None
+                    if r and r[0] == "func":
+                        edges.add(r[1].fq)
             # callback roots: walker.walk(listener, tree) reaches every enter*/exit* of the listener's class
             if isinstance(n.func, ast.Attribute) and n.func.attr == "walk" and n.args:
                 t = lt.type_of(n.args[0])
@@ -858,6 +867,56 @@ class CallGraph:
                     out.append(cs)
         return out
 
+    def const_loop_envs(self, fi: FuncInfo, node: ast.AST) -> list[dict]:
+        """bindings of the variables that loops / comprehensions enclosing `node` iterate over constant containers
+        (tuple targets are unpacked); [{}] when there is none"""
+        parents = getattr(fi, "_parents", None)
+        if parents is None:
+            parents = {}
+            for n in ast.walk(fi.node):
+                for c in ast.iter_child_nodes(n):
+                    parents[id(c)] = n
+            try:
+                fi._parents = parents
+            except Exception:
+                pass
+        envs = [{}]
+        cur = node
+        ce = ConstEval(self.repo, fi.module)
+        while id(cur) in parents:
+            cur = parents[id(cur)]
+            gens = []
+            if isinstance(cur, ast.For):
+                gens = [(cur.target, cur.iter)]
+            elif isinstance(cur, (ast.ListComp, ast.SetComp, ast.DictComp, ast.GeneratorExp)):
+                gens = [(g.target, g.iter) for g in cur.generators]
+            for tg, it in gens:
+                try:
+                    c = ce.eval(it, {})
+                except (NotConst, TypeError, KeyError, IndexError, ValueError):
+                    continue
+                if isinstance(c, dict):
+                    c = list(c)
+                if not (isinstance(c, (set, frozenset, list, tuple)) and 0 < len(c) <= 12):
+                    continue
+                vals = sorted(c) if isinstance(c, (set, frozenset)) else list(c)
+                new = []
+                for e in envs:
+                    for v in vals:
+                        b = dict(e)
+                        if isinstance(tg, ast.Name):
+                            b[tg.id] = v
+                        elif isinstance(tg, (ast.Tuple, ast.List)) and isinstance(v, (tuple, list)) and len(v) == len(tg.elts) and all(isinstance(x, ast.Name) for x in tg.elts):
+                            for x, vv in zip(tg.elts, v):
+                                b[x.id] = vv
+                        else:
+                            b = None
+                        if b is not None:
+                            new.append(b)
+                if new:
+                    envs = new
+        return envs
+
     def param_values(self, fi: FuncInfo, param: str, within: Optional[set[str]] = None, _depth=0) -> Optional[set]:
         """interprocedural constant propagation for one parameter: the set of
         constant values the call sites (optionally only those inside `within`)
@@ -896,6 +955,14 @@ class CallGraph:
                 pass
             except TypeError:
                 return None
+            if isinstance(arg, ast.Name):
+                le = self.const_loop_envs(cs.caller, cs.node)
+                if le and all(arg.id in e for e in le):
+                    try:
+                        vals |= {e[arg.id] for e in le}
+                        continue
+                    except TypeError:
+                        return None
             if isinstance(arg, ast.Name) and arg.id in {a.arg for a in cs.caller.node.args.args}:
                 sub = self.param_values(cs.caller, arg.id, within, _depth + 1)
                 if sub is None:
